@@ -248,6 +248,17 @@ func c19Child(args []string) {
 				time.Sleep(15 * time.Millisecond) // let the channel goroutines write the MPD
 			}
 			time.Sleep(40 * time.Millisecond)
+			// (on a loaded machine the channel goroutines may lag: wait until the storage has been stable for 60 ms, at most 3 s)
+			{
+				prev := fmt.Sprint(storedDigest(dir))
+				waitFor(3*time.Second, func() bool {
+					time.Sleep(60 * time.Millisecond)
+					cur := fmt.Sprint(storedDigest(dir))
+					same := cur == prev
+					prev = cur
+					return same
+				})
+			}
 			// every channel object has its own goroutine (channel.run) until the context is cancelled
 			buf := make([]byte, 4<<20)
 			n := runtime.Stack(buf, true)
